@@ -53,6 +53,15 @@ def F(a=None, b=None, c=None, d=None, k1=None, k2=None) -> tuple:
     return (a, b, c, d, k1, k2)
 
 
+def _f2(a=None, b=None, c=None, d=None, k1=None, k2=None):
+    _log_body("F2")
+    return ("first", a, b, c, d, k1, k2), ("second", a, b, c, d, k1, k2)
+
+
+# the same task with TWO output fields (every combined group must hold the values of its own field)
+F2 = python.define(_f2, outputs={"o1": tuple, "o2": tuple}, name="F2")
+
+
 @python.define
 def G(x=None, y=None, k1=None) -> tuple:
     _log_body("G")
@@ -221,7 +230,8 @@ def run_sequence(e2e, builds):
                     res["stage"] = "call"
                     outputs = task(cache_root=root, worker="debug")
                     res["stage"] = "done"
-                    res["out"] = outputs.out
+                    res["out"] = getattr(outputs, "out", None)
+                    res["fields"] = {n: getattr(outputs, n) for n in ("o1", "o2") if hasattr(outputs, n)}
             except Exception as e:
                 res["exc"] = f"{type(e).__name__}: {e}"[:160]
             finally:
@@ -279,6 +289,15 @@ def build_F(splitter, inputs, combiner=None):
     fs = SP.fields_of(splitter)
     init = {f: unsplit_value(f) for f in FIELDS if f not in fs}
     t = F(k1=K1, k2=deepcopy(K2), **init).split(deepcopy(splitter), **deepcopy(inputs))
+    if combiner:
+        t = t.combine(list(combiner))
+    return t
+
+
+def build_F2(splitter, inputs, combiner=None):
+    fs = SP.fields_of(splitter)
+    init = {f: unsplit_value(f) for f in FIELDS if f not in fs}
+    t = F2(k1=K1, k2=deepcopy(K2), **init).split(deepcopy(splitter), **deepcopy(inputs))
     if combiner:
         t = t.combine(list(combiner))
     return t
